@@ -498,7 +498,9 @@ func (r *Resolver) resolveOne(ctx context.Context, name, typ string) ([]any, err
 	}
 	res, ttl, err := r.resolveOneNoCache(ctx, name, typ)
 	if err != nil {
-		cache.Remove(key)
+		// Nothing is stored: the entry stays as it is, i.e. not fresh. It
+		// must stay in the cache: other lookups may be waiting on it, and
+		// what they fetch has to be found by the lookups that follow.
 		return nil, err
 	}
 	v.expiration = timeNow().Add(time.Second * time.Duration(ttl))
